@@ -292,6 +292,10 @@ def parse_enum(enum_type: type[E]) -> Callable[[str], E]:
     # "(...).parse_enum.<locals>._parse_enum" or something.
     @functools.wraps(enum_type)
     def _parse_enum(v: str) -> E:
+        if isinstance(v, enum_type):
+            # A default that already is a member (argparse converts defaults that are `str`
+            # instances, which members of a `str`-mixin Enum are).
+            return v
         try:
             return enum_type[v]
         except KeyError:
